@@ -228,6 +228,15 @@ func c01Specs(thorough bool) []mb.Msg {
 			mb.Msg{Enc: menc, Parts: []mb.Part{{Type: "text/plain", Content: bigText, Via: "string"}, {Type: "text/html", Content: bigText, Enc: "b64"}}, Attach: []mb.File{{Name: "big.bin", Content: bigBin}, {Name: "big.txt", Content: bigText, Enc: "8bit"}}, Embeds: []mb.File{{Name: "big.png", Content: bigBin[:70001]}}},
 		)
 	}
+	// 7bit (EncodingUSASCII): ASCII content must come out unencoded
+	ascii := [][]byte{[]byte("plain ascii\r\nwith a=b and =3D literal\r\n"), []byte(repeatTo("a long ascii line without any break ", 300) + "\r\n"), []byte(".dot\r\ntrailing blank \r\n"), []byte("x")}
+	for ai, a := range ascii {
+		specs = append(specs,
+			mb.Msg{Enc: "usascii", Parts: []mb.Part{{Type: "text/plain", Content: a}}},
+			mb.Msg{Enc: "usascii", Parts: []mb.Part{{Type: "text/plain", Content: a}, {Type: "text/html", Content: ascii[(ai+1)%len(ascii)]}}, Attach: []mb.File{{Name: "a.bin", Content: bins[5]}}},
+			mb.Msg{Enc: "qp", Parts: []mb.Part{{Type: "text/plain", Content: texts[ai], Enc: "b64"}, {Type: "text/html", Content: a, Enc: "usascii"}}, Embeds: []mb.File{{Name: "e.png", Content: bins[6]}}},
+		)
+	}
 	// all content strings in every leaf position of the full three-level shape
 	for i := range texts {
 		for j := range bins {
